@@ -23,6 +23,9 @@ def run_part(pid, idx, part, opts):
     """worker entry: explore one partition; never raises"""
     t = time.perf_counter()
     try:
+        if os.environ.get('VF_DUMP_AFTER'):
+            import faulthandler
+            faulthandler.dump_traceback_later(float(os.environ['VF_DUMP_AFTER']), exit=True)
         sys.setrecursionlimit(10000)
         _assert_tree()
         mod = load(pid)
